@@ -77,6 +77,84 @@ theorem released_waiter_returns_closed (c : Cfg) (i : Nat) (hw : (c.s i).pc = .w
   simp only [run, step, enabled, hw, ht, apply, setS, Sender.afterDecide, upd_same, decide_true, Bool.and_self, if_true,
     upd2_apply, and_self, b2n]
 
+/-! ### the generation is REPLACED while a sender sits between its write and its wait
+
+  `sendWaitReply` writes (Pc `written`), then increments the gauge and enters the four-way wait (Pc `waiting`).
+  Nothing ties a sender at `written` to the present: by the time it enters the wait, the epoch it pinned may have been
+  torn down, joined, and one or more later epochs published, brought up and selected.  The teardown arm of the wait
+  must therefore read the PINNED epoch's context (`(c.ep (c.s i).ep).ctxDone`), never "the current epoch's"
+  (`c.cur`).  (Harness: harness/c09_stale.go holds a real sender at exactly this point through the trace logger and
+  replays the recorded history with the sender kept at `written` across `teardown`/`join`/`publish`.) -/
+
+/-- the teardown arm of the reply wait is enabled exactly when the sender waits and the epoch IT PINNED is torn down ... -/
+theorem closed_branch_iff_pinned_epoch_done (c : Cfg) (i : Nat) :
+    enabled c (.decide i .closed) = true ↔ (c.s i).pc = .waiting ∧ (c.ep (c.s i).ep).ctxDone = true := by
+  simp [enabled]
+
+/-- ... whatever the current epoch is: `c.cur` (a later, live generation; or none) neither enables nor holds it -/
+theorem closed_branch_ignores_current_epoch (c : Cfg) (i : Nat) (cur' : Option Nat) :
+    enabled { c with cur := cur' } (.decide i .closed) = enabled c (.decide i .closed) := rfl
+
+/-- a started sender keeps the epoch it pinned, and never moves backwards, whatever else happens -/
+theorem pinned_epoch_stable_run (i : Nat) : ∀ (as : List Action) (c : Cfg), (c.s i).pc ≠ .new → (c.s i).pc ≠ .begun →
+    ((run c as).s i).ep = (c.s i).ep ∧ (c.s i).pc.rank ≤ ((run c as).s i).pc.rank
+  | [], _, _, _ => ⟨rfl, Nat.le_refl _⟩
+  | a :: as, c, h1, h2 => by
+    have hs : ((step c a).s i).ep = (c.s i).ep ∧ (c.s i).pc.rank ≤ ((step c a).s i).pc.rank := by
+      unfold step
+      split
+      · rename_i he
+        obtain ⟨s1, _, s3⟩ := apply_sender_stable c a he i
+        exact ⟨s3 h1 h2, s1⟩
+      · exact ⟨rfl, Nat.le_refl _⟩
+    have hr : 2 ≤ (c.s i).pc.rank := by cases hp : (c.s i).pc <;> simp_all [Pc.rank]
+    have h1' : ((step c a).s i).pc ≠ .new := by
+      intro hn
+      have h0 := hs.2
+      rw [hn] at h0
+      have : Pc.rank .new = 0 := rfl
+      omega
+    have h2' : ((step c a).s i).pc ≠ .begun := by
+      intro hn
+      have h0 := hs.2
+      rw [hn] at h0
+      have : Pc.rank .begun = 1 := rfl
+      omega
+    obtain ⟨r1, r2⟩ := pinned_epoch_stable_run i as (step c a) h1' h2'
+    exact ⟨by rw [run, r1, hs.1], by rw [run]; exact Nat.le_trans hs.2 r2⟩
+
+/-- **A sender whose generation ended between its write and its wait is released by THAT generation's end**, after any
+    continuation `as` (later epochs published, connected, selected, used by other senders; this sender's own next
+    step): as long as it has not decided yet, it either still sits at `written` — the increment is enabled and leads
+    into a wait whose connection-closed branch is enabled — or it waits, with the connection-closed branch enabled. -/
+theorem stale_sender_released_across_generations (c : Cfg) (i : Nat) (hw : (c.s i).pc = .written)
+    (ht : (c.ep (c.s i).ep).ctxDone = true) (as : List Action) :
+    (((run c as).s i).pc = .written →
+        enabled (run c as) (.incInflight i) = true ∧ enabled (step (run c as) (.incInflight i)) (.decide i .closed) = true) ∧
+    (((run c as).s i).pc = .waiting → enabled (run c as) (.decide i .closed) = true) := by
+  obtain ⟨he, _⟩ := pinned_epoch_stable_run i as c (by simp [hw]) (by simp [hw])
+  have hd : ((run c as).ep ((run c as).s i).ep).ctxDone = true := by rw [he]; exact ctxDone_run _ as c ht
+  refine ⟨fun hp => ?_, fun hp => by simp [enabled, hp, hd]⟩
+  have h1 : enabled (run c as) (.incInflight i) = true := by simp [enabled, hp]
+  refine ⟨h1, ?_⟩
+  have hs : ((apply (run c as) (.incInflight i)).s i).pc = .waiting ∧
+      ((apply (run c as) (.incInflight i)).s i).ep = ((run c as).s i).ep ∧
+      (apply (run c as) (.incInflight i)).ep = (run c as).ep := by simp [apply, setS]
+  have hst : step (run c as) (.incInflight i) = apply (run c as) (.incInflight i) := by
+    unfold step; rw [if_pos h1]
+  rw [hst]
+  simp [enabled, hs.1, hs.2.1, hs.2.2, hd]
+
+/-- ... and from `written` its four own steps (increment, connection-closed branch, the two deferred calls) complete
+    the call with connection-closed, the gauge back where it was and the registry slot of ITS epoch free. -/
+theorem written_sender_of_ended_generation_returns_closed (c : Cfg) (i : Nat) (hw : (c.s i).pc = .written)
+    (ht : (c.ep (c.s i).ep).ctxDone = true) :
+    let c' := run c [.incInflight i, .decide i .closed, .decInflight i, .deregister i]
+    (c'.s i).pc = .done ∧ (c'.s i).out = some .closed ∧ c'.reg (c.s i).ep (c.s i).sb = none ∧ c'.m.inflight = c.m.inflight := by
+  simp only [run, step, enabled, hw, ht, apply, setS, Sender.afterDecide, upd_same, decide_true, Bool.and_self, if_true,
+    upd2_apply, and_self, b2n, true_and]
+  split <;> simp <;> omega
+
 /-- nothing else a sender of a torn-down epoch does can block or reach the wire: the pre-write check answers
     connection-closed, a write that had already passed the check fails -/
 theorem torn_down_epoch_refuses_writes (c : Cfg) (hr : Reachable c) (e : Nat) (h : (c.ep e).ctxDone = true) :
@@ -147,5 +225,18 @@ def sampleTrace : List Action :=
 example : Reachable (run init sampleTrace) ∧ ((run init sampleTrace).ep 0).ctxDone = true ∧
     ((run init sampleTrace).s 0).pc = .waiting ∧ 1 ∈ (run init sampleTrace).queue 0 := by
   refine ⟨⟨_, rfl⟩, by decide, by decide, by decide⟩
+
+/-! ## Non-vacuity of the replaced-generation theorems: sender 0 wrote on epoch 0; epoch 0 was torn down and joined, epoch 1
+    published, connected and selected (and used by sender 1) while sender 0 still sits at `written` -/
+def staleTrace : List Action :=
+  [.publish, .connUp, .setSelected true, .begin 0 .sync, .pin 0, .gate 0, .register 0, .wcheck 0, .write 0 true,
+   .setSelected false, .teardown 0, .join 0, .publish, .connUp, .setSelected true,
+   .begin 1 .sync, .pin 1, .gate 1, .register 1, .wcheck 1, .write 1 true, .incInflight 1]
+
+example : Reachable (run init staleTrace) ∧ ((run init staleTrace).s 0).pc = .written ∧ ((run init staleTrace).s 0).ep = 0 ∧
+    ((run init staleTrace).ep 0).ctxDone = true ∧ (run init staleTrace).cur = some 1 ∧ ((run init staleTrace).ep 1).ctxDone = false ∧
+    (run init staleTrace).selected = true ∧
+    ((run (run init staleTrace) [.incInflight 0, .decide 0 .closed, .decInflight 0, .deregister 0]).s 0).out = some .closed := by
+  refine ⟨⟨_, rfl⟩, by decide, by decide, by decide, by decide, by decide, by decide, by decide⟩
 
 end GoSecs.Props.C09
